@@ -352,3 +352,5 @@ def run(tier, seed):
 
 
 RULE += (" Position rule also on parameters that declare a precision (five boxes off the precision grid); after every run: no recorded particle's own position dominates the personal best recorded for it.")
+
+RULE += (' Beyond small: runs with N in {31, 32, 33, 48, 64, 65, 100}, constrained and unconstrained; runs with scripted transient failures judged on the objectives alone when the problem has no constraints.')
